@@ -2,6 +2,7 @@ package main
 
 import (
 	"fmt"
+	"math"
 	"unsafe"
 
 	"github.com/flowmatters/openwater-core/data"
@@ -204,7 +205,8 @@ func bigarraysEngine(args []string) error {
 			}
 		}
 	}
-	s.Distinct = 2 * 2 * 5
+	valueDomain(s, fail)
+	s.Distinct = 2*2*5 + 6
 	s.emit()
 	_ = keepC
 	return nil
@@ -215,4 +217,145 @@ func max0(a int) int {
 		return 0
 	}
 	return a
+}
+
+// valueDomain: NdArray.tla's values are opaque tokens -- a write stores the value it is given, a read returns the value
+// stored, a copy moves values unchanged, the maximum is the largest element.  TLC (and the replay of its behaviours)
+// uses small non-negative integers that are exact in all eight element types; here the same statements are evaluated on
+// the values at the edges of the 64-bit types: float64 by BIT PATTERN (signed zeros, infinities, the smallest denormal,
+// the largest finite), int64 / uint64 beyond 2^53 where neighbouring integers have no float64 of their own.
+func valueDomain(s *summary, fail func(kind, op, detail string)) {
+	fvals := []float64{math.Copysign(0, -1), 0, math.Inf(1), math.Inf(-1), math.SmallestNonzeroFloat64, -math.SmallestNonzeroFloat64,
+		math.MaxFloat64, -math.MaxFloat64, 1, math.Copysign(0, -1), 0, -1}
+	for _, be := range []string{"go", "c"} {
+		mkF := func(n int) data.ND1Float64 {
+			if be == "c" {
+				buf := make([]float64, n)
+				return cdata.NewFloat64CArray(unsafe.Pointer(&buf[0]), []int{n}).(data.ND1Float64)
+			}
+			return data.NewArray1DFloat64(n)
+		}
+		n := len(fvals)
+		src := mkF(n)
+		for i, v := range fvals {
+			src.Set1(i, v)
+		}
+		bitsOf := func(a data.ND1Float64) []uint64 {
+			r := make([]uint64, a.Len1())
+			for i := range r {
+				r[i] = math.Float64bits(a.Get1(i))
+			}
+			return r
+		}
+		want := make([]uint64, n)
+		for i, v := range fvals {
+			want[i] = math.Float64bits(v)
+		}
+		same := func(op string, got []uint64, w []uint64) {
+			s.Evaluations++
+			for i := range w {
+				if i >= len(got) || got[i] != w[i] {
+					fail("bulk", op+" ("+be+"-backed float64)", fmt.Sprintf("element %d has bit pattern %#x, the value written has %#x (all: %x, written %x)", i, got[min2(i, len(got)-1)], w[i], got, w))
+					return
+				}
+			}
+		}
+		same("Set1/Get1", bitsOf(src), want)
+		// copies onto a destination that holds the OTHER zero / other values everywhere
+		for _, other := range []string{"go", "c"} {
+			mkO := func(n int) data.ND1Float64 {
+				if other == "c" {
+					buf := make([]float64, n)
+					return cdata.NewFloat64CArray(unsafe.Pointer(&buf[0]), []int{n}).(data.ND1Float64)
+				}
+				return data.NewArray1DFloat64(n)
+			}
+			for _, fill := range []float64{0, math.Copysign(0, -1), 1} {
+				d := mkO(n)
+				for i := 0; i < n; i++ {
+					d.Set1(i, fill)
+				}
+				d.CopyFrom(src)
+				same(fmt.Sprintf("CopyFrom onto a %s-backed array holding %v", other, fill), bitsOf(d), want)
+				d2 := mkO(2 * n)
+				for i := 0; i < 2*n; i++ {
+					d2.Set1(i, fill)
+				}
+				d2.ApplySlice([]int{0}, []int{2}, src)
+				got := make([]uint64, n)
+				for i := 0; i < n; i++ {
+					got[i] = math.Float64bits(d2.Get1(2 * i))
+				}
+				same(fmt.Sprintf("ApplySlice (step 2) onto a %s-backed array holding %v", other, fill), got, want)
+				d3 := mkO(n)
+				for i := 0; i < n; i++ {
+					d3.Set1(i, fill)
+				}
+				d3.Apply1(0, 1, src.Unroll())
+				same(fmt.Sprintf("Apply1 onto a %s-backed array holding %v", other, fill), bitsOf(d3), want)
+			}
+		}
+		u := src.Unroll()
+		gu := make([]uint64, len(u))
+		for i, v := range u {
+			gu[i] = math.Float64bits(v)
+		}
+		same("Unroll", gu, want)
+		// 64-bit integers beyond 2^53: neighbours that differ by one
+		big := int64(1) << 53
+		ivals := []int64{big + 1, big + 2, big + 3, big, math.MaxInt64 - 1, math.MaxInt64, math.MinInt64 + 1, math.MinInt64, -big - 1, -big - 2}
+		var ia data.ND1Int64
+		if be == "c" {
+			buf := make([]int64, len(ivals))
+			ia = cdata.NewInt64CArray(unsafe.Pointer(&buf[0]), []int{len(ivals)}).(data.ND1Int64)
+		} else {
+			ia = data.NewArray1DInt64(len(ivals))
+		}
+		for i, v := range ivals {
+			ia.Set1(i, v)
+		}
+		s.Evaluations += 4
+		for i, v := range ivals {
+			if ia.Get1(i) != v {
+				fail("bulk", "Set1/Get1 ("+be+"-backed int64)", fmt.Sprintf("element %d reads %d, written %d", i, ia.Get1(i), v))
+			}
+		}
+		if mx, mn := ia.Maximum(), ia.Minimum(); mx != math.MaxInt64 || mn != math.MinInt64 {
+			fail("bulk", "Maximum/Minimum ("+be+"-backed int64)", fmt.Sprintf("Maximum %d, Minimum %d; the largest element is %d, the smallest %d", mx, mn, int64(math.MaxInt64), int64(math.MinInt64)))
+		}
+		head := ia.Slice([]int{0}, []int{4}, nil).(data.ND1Int64)
+		if mx, mn := head.Maximum(), head.Minimum(); mx != big+3 || mn != big {
+			fail("bulk", "Maximum/Minimum ("+be+"-backed int64)", fmt.Sprintf("of [2^53+1, 2^53+2, 2^53+3, 2^53]: Maximum %d, Minimum %d; element-by-element: %d and %d", mx, mn, big+3, big))
+		}
+		uvals := []uint64{1<<53 + 1, 1<<53 + 2, 1<<63 + 1, 1<<63 + 2, math.MaxUint64 - 1, math.MaxUint64, 1 << 53}
+		var ua data.ND1Uint64
+		if be == "c" {
+			buf := make([]uint64, len(uvals))
+			ua = cdata.NewUint64CArray(unsafe.Pointer(&buf[0]), []int{len(uvals)}).(data.ND1Uint64)
+		} else {
+			ua = data.NewArray1DUint64(len(uvals))
+		}
+		for i, v := range uvals {
+			ua.Set1(i, v)
+		}
+		for i, v := range uvals {
+			if ua.Get1(i) != v {
+				fail("bulk", "Set1/Get1 ("+be+"-backed uint64)", fmt.Sprintf("element %d reads %d, written %d", i, ua.Get1(i), v))
+			}
+		}
+		if mx, mn := ua.Maximum(), ua.Minimum(); mx != math.MaxUint64 || mn != 1<<53 {
+			fail("bulk", "Maximum/Minimum ("+be+"-backed uint64)", fmt.Sprintf("Maximum %d, Minimum %d; the largest element is %d, the smallest %d", mx, mn, uint64(math.MaxUint64), uint64(1<<53)))
+		}
+		mid := ua.Slice([]int{2}, []int{3}, nil).(data.ND1Uint64)
+		if mx, mn := mid.Maximum(), mid.Minimum(); mx != math.MaxUint64-1 || mn != 1<<63+1 {
+			fail("bulk", "Maximum/Minimum ("+be+"-backed uint64)", fmt.Sprintf("of [2^63+1, 2^63+2, 2^64-2]: Maximum %d, Minimum %d; element-by-element: %d and %d", mx, mn, uint64(math.MaxUint64-1), uint64(1<<63+1)))
+		}
+	}
+}
+
+func min2(a, b int) int {
+	if a < b {
+		return a
+	}
+	return b
 }
